@@ -125,8 +125,8 @@ type Sim struct {
 	confGen       int
 	pendingReload *model.Topo
 	pauseIPAM     func(method string, after bool) bool // set before runPaused: pause point between IPAM calls
-	compound      bool   // an interleaved (two-goroutine) execution is in progress: steps skip their monitors
-	faultTag      string // signature suffix of the execution mode
+	compound      bool                                 // an interleaved (two-goroutine) execution is in progress: steps skip their monitors
+	faultTag      string                               // signature suffix of the execution mode
 	recMu         sync.Mutex
 	lastBindPod   string
 	adminReserved map[string]bool // harness's own record of reservations made and not yet undone
